@@ -225,6 +225,16 @@ func monC13(c *VCtx) {
 	sessOf := func(lcnick string) (robust.Id, bool) { id, ok := v.ByNick[lcnick]; return id, ok }
 	for lc, pre := range v.Chans {
 		post := i.channels[lcChan(lc)]
+		if post == nil {
+			// the channel ceased to exist: so do the invitations into it (an invitation is a grant of the channel's
+			// operators; a later channel of the same name is somebody else's)
+			c.Count("c13_channel_deaths")
+			for id, ps := range i.sessions {
+				if ps.invitedTo[lcChan(lc)] {
+					rep("an invitation outlives the channel it was issued for", fmt.Sprintf("%s does not exist any more, %s still holds an invitation to it (it would admit the holder to a later channel of that name)", lc, vid(id)))
+				}
+			}
+		}
 		// members removed by somebody else
 		for n := range pre.Members {
 			id, ok := sessOf(n)
